@@ -269,4 +269,19 @@ def showSLine (p : SPoint) : Bytes :=
 def SPoint.row (p : SPoint) : Row :=
   ⟨p.name, sortTags p.tags, p.fields.map SField.field, tsOf p.ts⟩
 
+
+/-! ### one-line request blocks -/
+
+/-- a line that `unmarshalRow` neither trims nor skips. -/
+def LineShape (s : Bytes) : Prop :=
+  (∀ c ∈ s, c ≠ bNL) ∧ s.getLast? ≠ some bCR ∧ s.head? ≠ some bHash ∧ s ≠ []
+
+instance (s : Bytes) : Decidable (LineShape s) := by unfold LineShape; infer_instance
+
+/-- what the stored row of a parsed row is. -/
+def storedOf (mult : Int) (r : Row) : StoredRow :=
+  { name := r.name, tags := r.tags, fields := r.fields.map storeField,
+    ts := if r.ts = noTimestamp then none else some (r.ts * mult) }
+
+
 end OG.C06
